@@ -150,8 +150,8 @@ def texts_stage(rep, tier, wd, rng):
     # (4) executable programs (gate definitions through a usepulses statement) with loop counts at the edge: negative
     # literal, negative constant, zero, around prepare / measure events
     from . import passes
-    progs = passes.enumerate_programs(rep, 'edge-loops', passes.ast_cfg('H_N', 'M_E0', 'T_N', 'O_N', 5, 3, invariants=()), wd,
-                                      budget=1500 if tier == 'quick' else 30000)
+    progs = passes.enumerate_programs(rep, 'edge-loops', passes.ast_cfg('H_N', 'M_E0', 'T_N', 'O_N', 4, 3, invariants=()), wd,
+                                      budget=2500 if tier == 'quick' else 30000)
     rep.cov['executable_edge_loop_programs'] = len(progs)
     for p in progs:
         srcs.append(render.render_prog(p))
